@@ -659,6 +659,23 @@ def compare(c, res, rep):
 
 
 # ------------------------------------------------------------------ the monitor: the property on the real result
+def ref_connected(pairs):
+    """tools.connected (tools.py l.770-791) as it is in the pinned tree: {key: set(members)} in insertion order; a pair is
+    attached to the FIRST group that contains its first member (as key or member), else its second member; two existing
+    groups are never merged (recorded finding F18).  Only used to name the class of a failing pair."""
+    collapse = {}
+    for i, j in pairs:
+        found = False
+        for k, v in collapse.items():
+            if i == k or i in v:
+                v.add(j); found = True; break
+            if j == k or j in v:
+                v.add(i); found = True; break
+        if not found:
+            collapse[i] = set((j,))
+    return collapse
+
+
 def true_components(pairs):
     comp = {}
 
@@ -869,18 +886,21 @@ def monitor(c, res, extra):
         frame(touched - {None}, "impose_as/frame")
         nodes = set(a for p in pairs for a in p)
         slots = [wrap(n, a) for a in nodes if wrap(n, a) is not None]
-        # judged only when every member has ONE parent and distinct index values address distinct entries
+        # judged only when distinct index values address distinct entries and either every member has ONE parent or
+        # there is no offset (then "tied" simply means equal, whatever the shape: chains {(i,k),(j,k)}, stars, paths -
+        # the docstring's own example ties (0,1),(3,1))
         tree = len(set(j for _, j in pairs)) == len(pairs) and len(set(slots)) == len(slots)
-        if tree:
+        if tree or (off == 0.0 and len(set(slots)) == len(slots)):
             for (i, j), (wi, wj) in zip(pairs, inr):
                 if wi is None or wj is None or y[wi] != y[wi]:
                     continue
                 if not (isfin(y[wi]) and isfin(y[wj])):
                     continue
                 if not (same_float(y[wj], y[wi] + off) or y[wj] == y[wi] + off):
-                    # were the two ends left in different groups by tools.connected ?
-                    from mystic.tools import connected
-                    grp = connected(list(pairs))
+                    # were the two ends left in different groups by tools.connected ?  Decided on a transcription of
+                    # tools.connected of the UNCHANGED tree (ref_connected), never on the tree under test: a pair that
+                    # the recorded grouping ties falls into no recorded class
+                    grp = ref_connected(list(pairs))
                     def where(a):
                         return [k for k, v in grp.items() if a == k or a in v]
                     split = not (set(where(i)) & set(where(j))) or len(where(i)) > 1 or len(where(j)) > 1
